@@ -62,13 +62,25 @@ def load_ast(src_dir=None):
     t0 = time.time()
     wd = scratch()
     shim = os.path.join(wd, "shim.cpp")
-    with open(shim, "w") as f:
-        f.write(SHIM)
+    cache = os.path.join(wd, "engine_ast.json")
     cmd = ["clang++-14", "-std=c++11", "-fsyntax-only", "-I" + src_dir, "-Xclang", "-ast-dump=json",
            "-Xclang", "-ast-dump-filter=" + NS, shim]
-    out = subprocess.run(cmd, capture_output=True, text=True)
-    if out.returncode != 0 or not out.stdout.strip():
-        raise HarnessError("clang AST dump failed: %s" % out.stderr[-800:])
+    from ..common import flock
+    with flock("ast"):
+        if not os.path.exists(cache):      # dumped once per check run (workers share the parent's scratch)
+            with open(shim, "w") as f:
+                f.write(SHIM)
+            outp = subprocess.run(cmd, capture_output=True, text=True)
+            if outp.returncode != 0 or not outp.stdout.strip():
+                raise HarnessError("clang AST dump failed: %s" % outp.stderr[-800:])
+            with open(cache + ".tmp", "w") as f:
+                f.write(outp.stdout)
+            os.replace(cache + ".tmp", cache)
+    text = open(cache).read()
+
+    class _O:
+        stdout = text
+    out = _O()
     root = json.JSONDecoder().raw_decode(out.stdout.lstrip())[0]
     _fill_locations(root)
     files = sorted(f for f in os.listdir(src_dir) if f.endswith((".hpp", ".cpp")))
